@@ -289,9 +289,6 @@ Proof.
     apply upd_other. specialize (Hlv l Hl). lia.
 Qed.
 
-Lemma min_above z n a b : z < n → (z < a ∨ a = n) → z < b → z < a `min` b.
-Proof. lia. Qed.
-
 (** ** The recursion [_image] *)
 Theorem image_rec_spec fuel : ∀ s u v um vm q fa cache r s',
   Inv s → valid s u → valid s v → no_reorder s →
